@@ -333,18 +333,23 @@ def explore(fn, cfg, opts):
                 continue
             # candidate counterexample: replay on the plain library before reporting
             confirmed, attempts, rep, model = False, 0, None, None
-            block = []
+            block, used_robust = [], False
             while attempts < int(opts.get("replay_attempts", 4)):
                 attempts += 1
                 model = _model_values(z3, e, m)
                 confirmed, rep = replay(fn, cfg, model, list(e.choices) if hasattr(e, "choices") else [], opts, ob.label)
                 if confirmed or rep.get("status") == "harness-error":
                     break
-                # ask for a different model
-                diff = [v != m.eval(v, model_completion=True) for (v, k) in e.vars.values() if k != "b"][:64]
-                if not diff:
-                    break
-                block.append(z3.Or(diff))
+                # ask for a different model: first one that violates the obligation by a margin a float replay cannot miss
+                rb = getattr(ob, "robust", None)
+                if rb is not None and rb is not True and rb is not False and not used_robust:
+                    used_robust = True
+                    block.append(rb)
+                else:
+                    diff = [v != m.eval(v, model_completion=True) for (v, k) in e.vars.values() if k != "b"][:64]
+                    if not diff:
+                        break
+                    block.append(z3.Or(diff))
                 verdict2, m2, _, _ = _solve(z3, e, z3.And(neg, *block), qt)
                 if verdict2 != "sat":
                     break
